@@ -37,18 +37,18 @@ func (in *Interp) havoc(name string, t types.Type, depth int) Value {
 			return (*Value)(nil)
 		}
 		p := new(Value)
-		*p = in.havoc(name+".*", u.Elem(), depth+1)
+		*p = in.havocNested(name+".*", u.Elem(), depth+1)
 		return p
 	case *types.Struct:
 		s := make(Struct, u.NumFields())
 		for i := range s {
-			s[i] = in.havoc(name+"."+u.Field(i).Name(), u.Field(i).Type(), depth)
+			s[i] = in.havocNested(name+"."+u.Field(i).Name(), u.Field(i).Type(), depth)
 		}
 		return s
 	case *types.Array:
 		a := make(Array, u.Len())
 		for i := range a {
-			a[i] = in.havoc(fmt.Sprintf("%s[%d]", name, i), u.Elem(), depth)
+			a[i] = in.havocNested(fmt.Sprintf("%s[%d]", name, i), u.Elem(), depth)
 		}
 		return a
 	case *types.Slice:
@@ -65,7 +65,7 @@ func (in *Interp) havoc(name string, t types.Type, depth int) Value {
 		}
 		s := make([]Value, n-1)
 		for i := range s {
-			s[i] = in.havoc(fmt.Sprintf("%s[%d]", name, i), u.Elem(), depth+1)
+			s[i] = in.havocNested(fmt.Sprintf("%s[%d]", name, i), u.Elem(), depth+1)
 		}
 		return s
 	case *types.Map:
@@ -80,7 +80,7 @@ func (in *Interp) havoc(name string, t types.Type, depth int) Value {
 			for _, e := range m.entries {
 				in.Assume(tb.Not(in.equal(e.k, k)))
 			}
-			v := in.havoc(fmt.Sprintf("%s.val%d", name, i), u.Elem(), depth+1)
+			v := in.havocNested(fmt.Sprintf("%s.val%d", name, i), u.Elem(), depth+1)
 			m.entries = append(m.entries, &mapEntry{k, v})
 		}
 		return m
@@ -124,7 +124,7 @@ func (in *Interp) havocJSON(name string, depth int) Value {
 		n := in.Choose(in.hb.MaxSlice + 1)
 		s := make([]Value, n)
 		for i := range s {
-			s[i] = in.havocJSON(fmt.Sprintf("%s[%d]", name, i), depth+1)
+			s[i] = &Lazy{t: tAny, name: fmt.Sprintf("%s[%d]", name, i), depth: depth + 1, hb: in.hb}
 		}
 		return Iface{T: tAnySl, V: s}
 	default:
@@ -135,8 +135,67 @@ func (in *Interp) havocJSON(name string, depth int) Value {
 			for _, e := range m.entries {
 				in.Assume(in.tb.Not(in.equal(e.k, k)))
 			}
-			m.entries = append(m.entries, &mapEntry{k, in.havocJSON(fmt.Sprintf("%s.val%d", name, i), depth+1)})
+			m.entries = append(m.entries, &mapEntry{k, &Lazy{t: tAny, name: fmt.Sprintf("%s.val%d", name, i), depth: depth + 1, hb: in.hb}})
 		}
 		return Iface{T: tAnyMap, V: m}
 	}
+}
+
+// Lazy is a havoc'd value whose shape has not been chosen yet (lazy initialisation): it is forced
+// the first time the program looks at it, so shapes that are never inspected cost no paths.
+type Lazy struct {
+	t      types.Type
+	name   string
+	depth  int
+	hb     havocBounds
+	forced bool
+	val    Value
+	src    *Lazy // deep copy of another lazy value
+}
+
+func (in *Interp) havocNested(name string, t types.Type, depth int) Value {
+	switch u := under(t).(type) {
+	case *types.Pointer, *types.Slice, *types.Map:
+		return &Lazy{t: t, name: name, depth: depth, hb: in.hb}
+	case *types.Interface:
+		if u.NumMethods() == 0 {
+			return &Lazy{t: t, name: name, depth: depth, hb: in.hb}
+		}
+	}
+	return in.havoc(name, t, depth)
+}
+
+// force resolves a lazy value (and is the identity on everything else).
+func (in *Interp) force(v Value) Value {
+	l, ok := v.(*Lazy)
+	if !ok {
+		return v
+	}
+	if l.forced {
+		return l.val
+	}
+	if l.src != nil {
+		l.val = deepCopy(in.force(l.src))
+	} else {
+		saved := in.hb
+		in.hb = l.hb
+		l.val = in.havoc(l.name, l.t, l.depth)
+		in.hb = saved
+	}
+	l.forced = true
+	return l.val
+}
+
+func (in *Interp) forceTop(v Value) Value {
+	switch x := v.(type) {
+	case *Lazy:
+		return in.force(x)
+	case Tuple:
+		for i := range x {
+			if _, ok := x[i].(*Lazy); ok {
+				x[i] = in.force(x[i])
+			}
+		}
+	}
+	return v
 }
